@@ -62,7 +62,7 @@ pub struct Term {
 
 #[derive(Serialize, Deserialize, Clone, Debug, Default)]
 pub struct Prog {
-    /// vec | slice | range | iter | iterx | inf | deque | list | btree | heap
+    /// vec | vecadv | slice | range | iter | iterx | inf | deque | list | btree | dequeref | btreeref
     pub src: String,
     pub input: Vec<i32>,
     pub ops: Vec<Op>,
@@ -72,6 +72,9 @@ pub struct Prog {
     /// source length; 0 = len(input). If larger, position i carries input[i % len(input)] ("big" programs)
     #[serde(default)]
     pub n: u64,
+    /// for src = vecadv: how many elements are pulled from the concurrent iterator before it is used
+    #[serde(default)]
+    pub adv: u32,
     #[serde(default = "neg1")]
     pub cs: i32,
     #[serde(default)]
